@@ -59,6 +59,8 @@ DocDefault == [N |-> 5, C |-> 10]
 \*   request travels the chain - also one thrown by the application's own OkHttp interceptors, or the IOException "Canceled"
 \*   of a call the application cancelled - is counted as a gateway failure and hidden from the caller (the request is
 \*   re-executed directly).  Against F5.  java.lang.Error is not caught.
+\* ts (fetch hook): fetchHandler wraps the gateway leg in `catch (error)`: the AbortError of a request the application
+\*   aborted, or any other rejection, is counted and hidden the same way.
 DevLegExceptionCounts == "exception-in-gateway-leg-counts-as-gateway-failure"
 \* ts (fetch hook): an error RESPONSE of the gateway (header x-lunar-error) calls FailSafe.onError twice
 \*   (interceptor.ts fetchHandler): the bypass starts after ceil(N/2) such responses.  Against F1.
@@ -66,7 +68,7 @@ DevErrorResponseCountsTwice == "gateway-error-response-counts-twice"
 
 FailSafeDevs(impl) ==
     CASE impl = "java" -> {DevLegExceptionCounts}
-      [] impl = "ts"   -> {DevErrorResponseCountsTwice}
+      [] impl = "ts"   -> {DevLegExceptionCounts, DevErrorResponseCountsTwice}
       [] OTHER         -> {}
 
 \* kinds of application exceptions (field `kind` of an "appexc" event) that an implementation's catch clause covers
@@ -86,8 +88,8 @@ DevAllowItemRaises == "unsupported-allow-item-raises"
 \* ts: names are never resolved ("If it's not an IP, we currently assume it's external"): localhost and names resolving to
 \*   private addresses are routed.  Against T1.
 DevNamesNotResolved == "names-never-resolved"
-\* ts: the destination is cut at the first ':' before anything else (port stripping): an IPv6 literal becomes "" or its
-\*   first group and is judged as an external name.  Against T1.
+\* ts: the destination (URL.host: "host:port", "[v6]:port") is cut at the first ':' to strip the port: an IPv6 literal
+\*   becomes "[" and is judged as an external name, whatever the lists say about it.  Against T1 / T3.
 DevV6CutAtColon == "ipv6-literal-cut-at-colon"
 
 FilterDevs(impl) ==
